@@ -364,6 +364,11 @@ Inductive template :=
   | TQuant (forall_ : bool) (vars_of fn : operand).
       (* self.quantify(fn, self.support(vars_of), forall=...) *)
 
+Global Instance operand_eq_dec : EqDecision operand.
+Proof. solve_decision. Defined.
+Global Instance template_eq_dec : EqDecision template.
+Proof. solve_decision. Defined.
+
 Definition apply_table : list (list string * template) :=
   [ (["~"; "not"; "!"], TRet (ONeg OU));
     (["or"; "\/"; "|"; "||"], TIte OU OTrue OV);
